@@ -10,10 +10,13 @@ import pipeline_common as P
 def norm_msg(msg):
     """panic message with the input-specific parts removed"""
     import re
+    msg = msg.strip()
+    if "Error defining function" in msg:
+        msg = msg[msg.index("Error defining function"):]
     msg = re.sub(r"`[^`]*`", "`_`", msg)
     msg = re.sub(r"[\w#]+(::[\w#<>]+)+", "P", msg)
     msg = re.sub(r"[0-9]+", "N", msg)
-    return msg[:60]
+    return msg[:90]
 
 
 def site_of(pan):
@@ -27,8 +30,11 @@ REGULAR = ("frontend", "infer", "diagnostics", "comptime", "no-entry", "codegen"
 
 def sig_of(job, r, rec, b):
     pan = r.get("panic") or {}
+    msg = pan.get("msg") or ""
+    if msg.startswith("exit:"):
+        msg = (r.get("compiler_stdout_tail") or "")[:200] or msg
     return {"kind": "compile-outcome", "event": rec["ev"][b["at"] - 1] if rec["ev"] else "none",
-            "site": site_of(pan), "msg": norm_msg(pan.get("msg") or "")}
+            "site": site_of(pan), "msg": norm_msg(msg)}
 
 
 def inputs(chk):
